@@ -37,6 +37,18 @@ struct Gc<T> { _p: core::marker::PhantomData<T> }
 #[verifier::accept_recursive_types(T)]
 struct Guard<T> { _p: core::marker::PhantomData<T> }
 
+// TRUSTED wrappers for rules R3 / R6 (bodies are the std calls they replace): format! of &str pieces is
+// concatenation, str::to_string is the identity on the text
+#[verifier::external_body]
+fn vf_concat2(a: &str, b: &str) -> (r: String)
+    ensures r@ == a@ + b@,
+{ format!("{}{}", a, b) }
+
+#[verifier::external_body]
+fn vf_to_string(s: &str) -> (r: String)
+    ensures r@ == s@,
+{ s.to_string() }
+
 // ---- abstract view of a reported frame and of the whole trace -----------------------------------
 struct FrameView { name: Option<Seq<char>>, file: Option<Seq<char>>, line: u32, column: u32 }
 
